@@ -211,6 +211,7 @@ pub fn gen_c26(run_seed: u64) -> Result<Scenario, String> {
             body: vec![Ins::I32Const(magic), Ins::Drop],
             magic,
             tag: None,
+            clear: false,
         };
         let use_inject_at = rng.chance(1, 3) && !matches!(mode, Mode::FuncEntry | Mode::FuncExit);
         plan.sites.push((k as u32, func, site, use_inject_at));
